@@ -61,3 +61,14 @@ pub fn spec_icao(m: &[u32]) -> Option<u32> {
 pub fn frame_accepted(m: &[u32]) -> bool {
     valid_msg(m) && agree(m) && parity_ok(m)
 }
+
+/// C03 in terms of a given CRC value of the data bits (used where the CRC routine is a
+/// contracted callee): AA field for DF11/17/18, AP xor crc for DF0/4/5/16/20/21; zero dropped.
+pub fn icao_from(m: &[u32], crc: u32) -> Option<u32> {
+    let a = match df_of(m) {
+        11 | 17 | 18 => bits(m, 9, 32),
+        0 | 4 | 5 | 16 | 20 | 21 => ap_field(m) ^ crc,
+        _ => return None,
+    };
+    if a == 0 { None } else { Some(a) }
+}
